@@ -1078,10 +1078,16 @@ class Process(StateMachine, persistence.Savable, metaclass=ProcessStateMachineMe
                     except Exception:
                         callback_location = '<unknown location>'
 
+                    # (an exception may have no printable form: the reply carries it all the same)
+                    try:
+                        exc_str = str(exc)
+                    except Exception:
+                        exc_str = '<exception str() failed>'
+
                     # Include the callback name, file/line info, and the full traceback in the message
                     raise RuntimeError(
                         f"Error invoking callback '{callback.__name__}' at {callback_location}.\n"
-                        f'Exception: {type(exc).__name__}: {exc}\n\n'
+                        f'Exception: {type(exc).__name__}: {exc_str}\n\n'
                         f'Full Traceback:\n{tb_str}'
                     ) from exc
                 else:
